@@ -6,9 +6,9 @@ from bounded import fa_gen
 
 def fail(check, detail): return {'check': check, 'detail': str(detail)[:500]}
 
-VALUES = ['q0', 'q1', 'a b', 'Q', 7, 3, 'x/y', "it's", 'é', '0']      # JSON-representable, no ' -> ', no ' / ', not an epsilon spelling
-SYMS = ['a', 'b', 'A', 'long symbol', 1, 'c/d', '->']
-TOK_VARS = ['S', 'A', 'b', 'x1', 'Var']          # whitespace-free tokens; lower-case variables need "VAR:"
+VALUES = ['q0', 'q1', 'a b', 'Q', 7, 0, 'x/y', "it's", 'é', '0']      # JSON-representable, no ' -> ', no ' / ', not an epsilon spelling
+SYMS = ['a', 'b', 'A', 'long symbol', 1, 0, 'c/d', '->']
+TOK_VARS = ['S', 'A', 'b', 'x1', 'Var', '1st', '_v', '0#CNF#', '(x']          # whitespace-free tokens; lower-case variables need "VAR:"
 TOK_TERMS = ['a', 'c', 'T', 'Ta', '0', '+', 'B2']   # capitalised terminals need "TER:"
 
 
